@@ -803,6 +803,8 @@ def _render(v, depth=0):
         return "[%s]" % ", ".join(_render(x, depth + 1) for x in v[1])
     if k == "set":
         return "{%s}" % ", ".join(_render(x, depth + 1) for x in v[1])
+    if k == "map":
+        return "{%s}" % ", ".join("%s: %s" % (_render(a, depth + 1), _render(b, depth + 1)) for a, b in v[1])
     if k == "call":
         return "%s(%s)" % (v[1], ", ".join(_render(x, depth + 1) for x in v[2]))
     if k == "bin":
@@ -1507,6 +1509,72 @@ def s_find(I_, st, path, c, args, t, depth):
     return out
 
 
+def _concrete_key(v):
+    return v[0] in ("i", "s", "label")
+
+
+def _map_target(I_, st, ref):
+    m = _target(I_, st, ref)
+    return m if (m[0] == "map") else None
+
+
+def s_hashmap_new(I_, st, path, c, args, t, depth):
+    return [(st, ("map", ()))]
+
+
+def s_hashmap_insert(I_, st, path, c, args, t, depth):
+    m = _map_target(I_, st, args[0])
+    k = _target(I_, st, args[1]) if args[1][0] in ("lref", "ptr") else args[1]
+    if m is None or not _concrete_key(k) or not all(_concrete_key(e[0]) for e in m[1]):
+        return None
+    old = None
+    ents = []
+    for (k2, v2) in m[1]:
+        if k2 == k:
+            old = v2
+            ents.append((k2, args[2]))
+        else:
+            ents.append((k2, v2))
+    if old is None:
+        ents.append((k, args[2]))
+    if not _store(I_, st, args[0], ("map", tuple(ents))):
+        return None
+    return [(st, NONE if old is None else some(old))]
+
+
+def s_hashmap_lookup(kind):
+    def h(I_, st, path, c, args, t, depth):
+        m = _map_target(I_, st, args[0])
+        k = _target(I_, st, args[1]) if args[1][0] in ("lref", "ptr") else args[1]
+        if m is None or not _concrete_key(k) or not all(_concrete_key(e[0]) for e in m[1]):
+            return None
+        hit = [v2 for (k2, v2) in m[1] if k2 == k]
+        if kind == "contains_key":
+            return [(st, I(1 if hit else 0))]
+        if kind == "get":
+            return [(st, some(hit[0]) if hit else NONE)]
+        if kind == "index":
+            return [(st, hit[0])] if hit else None
+        if kind == "len":
+            return [(st, I(len(m[1])))]
+        return None
+    return h
+
+
+_INT_RANGE = {"i8": (-2**7, 2**7 - 1), "i16": (-2**15, 2**15 - 1), "i32": (-2**31, 2**31 - 1), "i64": (-2**63, 2**63 - 1), "isize": (-2**63, 2**63 - 1),
+              "u8": (0, 2**8 - 1), "u16": (0, 2**16 - 1), "u32": (0, 2**32 - 1), "u64": (0, 2**64 - 1), "usize": (0, 2**64 - 1)}
+
+
+def s_int_try_from(I_, st, path, c, args, t, depth):
+    """integer TryFrom on a concrete number: Ok when it fits the target type"""
+    m = re.search(r"TryFrom<(\w+)> for (\w+)>::try_from$", path)
+    v = args[0]
+    if not m or v[0] != "i" or m.group(2) not in _INT_RANGE:
+        return None
+    lo, hi = _INT_RANGE[m.group(2)]
+    return [(st, ok(v) if lo <= v[1] <= hi else err(U("TryFromIntError")))]
+
+
 SUMMARIES = [(re.compile(rx), h) for rx, h in [
     (r"^(std|alloc)::vec::Vec::<T>::new$|^(std|alloc)::vec::Vec::<T>::with_capacity$", s_vec_new),
     (r"^(std|alloc)::vec::Vec::<T, A>::push$|^(std|alloc)::string::String::push_str$|^(std|alloc)::string::String::push$", s_vec_push),
@@ -1551,6 +1619,11 @@ SUMMARIES = [(re.compile(rx), h) for rx, h in [
     (r"alloc::alloc::exchange_malloc$", s_malloc),
     (r"slice::<impl \[T\]>::into_vec$", s_into_vec),
     (r"HashSet::<T>::new$|HashSet::<T, S>::new$", s_set_new),
+    (r"TryFrom<\w+> for \w+>::try_from$", s_int_try_from),
+    (r"HashMap::<K, V>::new$|HashMap::<K, V, S>::new$|HashMap::<K, V>::with_capacity$", s_hashmap_new),
+    (r"HashMap::<K, V, S>::insert$", s_hashmap_insert),
+    (r"HashMap::<K, V, S>::contains_key$", s_hashmap_lookup("contains_key")), (r"HashMap::<K, V, S>::get$", s_hashmap_lookup("get")),
+    (r"HashMap<K, V, S> as std::ops::Index<&Q>>::index$|HashMap<K, V, S> as core::ops::Index<&Q>>::index$", s_hashmap_lookup("index")),
     (r"HashSet::<T, S>::insert$", s_set_insert),
     (r"HashSet::<T, S>::iter$", s_set_iter),
     (r"Option::<T>::unwrap$|Result::<T, E>::unwrap$|Option::<T>::expect$|Result::<T, E>::expect$", s_option_unwrap),
